@@ -69,6 +69,7 @@ if [ $RC -ne 0 ]; then
     grep -E "panicked at|assertion|ERROR: " $WORK/fuzz.log | head -5
     viol "$A" "fuzz campaign"; exit 1
   fi
+  for a in $WORK/art/timeout-* $WORK/art/oom-* $WORK/art/slow-unit-*; do [ -f "$a" ] && cp "$a" $V/replays/$ID/ ; done
   echo "INCONCLUSIVE: fuzz target $TGT ended with status $RC without a crash artifact (timeout/oom): $(tail -3 $WORK/fuzz.log | tr '\n' ' ')"
   exit 2
 fi
